@@ -61,7 +61,8 @@ def errors(ctx):
     checks = []
     # unrelated shapes and shapes that differ only by length-1 axes (numpy would broadcast these silently)
     pairs = [((3,), (2, 2)), ((3,), (4,)), ((3, 1), (3,)), ((3,), (3, 1)), ((1, 3), (3, 1)), ((2, 1, 3), (2, 3)), ((1,), (3,)), ((3,), (1,)),
-             ((1, 4), (4,)), ((2, 2), (1, 2, 2)), ((2, 3), (3, 2))]
+             ((1, 4), (4,)), ((2, 2), (1, 2, 2)), ((2, 3), (3, 2)),
+             ((3,), ()), ((), (3,)), ((2, 2), ()), ((), (1,)), ((1, 1), ())]        # a 0-d array (a single value) is not a grid of any shape
     for sa, sb in pairs:
         x = eems.rand_array(rng, sa, rng.choice([int, float]))
         y = eems.rand_array(rng, sb, rng.choice([int, float]))
@@ -137,6 +138,38 @@ def unsigned(ctx):
                      dict(uns.describe(), dtypes=[str(numpy.dtype(d)) for d in dts]), finding="C07-F18-unsigned-wrap" if wrap else None)
 
 
+def narrow_floats(ctx):
+    """single- and half-precision fields next to double-precision or integer ones, with values at the edge of the narrow type's precision (2048 + 1 in
+    float16, 2^24 + 1 in float32): the result is the arithmetic definition computed on all inputs, in every input order"""
+    def arr(vals, dt, mask=None):
+        return numpy.ma.array(numpy.array(vals, dtype=dt), mask=mask if mask is not None else [False] * len(vals))
+    for narrow, edge in ((numpy.float16, 2048), (numpy.float32, 16777216)):
+        for wide in (numpy.float64, numpy.int64):
+            m = [False, False, False, True]
+            a, b = arr([edge, 1, -2, 0], narrow, m), arr([1, 3, 1, 5], wide)
+            ra, rb = arr([edge, 1, -2, 0], numpy.float64, m), arr([1, 3, 1, 5], numpy.float64)
+            for cmd, params in (("Sum", {}), ("Mean", {}), ("WeightedSum", {"Weights": [1, 1]}), ("WeightedSum", {"Weights": [1.0, 2.0]}), ("WeightedMean", {"Weights": [1, 1]}),
+                                ("AMinusB", {}), ("Maximum", {}), ("Minimum", {}), ("Multiply", {}), ("ADividedByB", {})):
+                for order in ((0, 1), (1, 0)):
+                    p = dict(params)
+                    if "Weights" in p:
+                        p["Weights"] = [p["Weights"][i] for i in order]
+                    case = Case(cmd, p, [[a, b][i].copy() for i in order])
+                    out, ref = eems.run_impl(case), eems.run_impl(Case(cmd, p, [[ra, rb][i].copy() for i in order]))
+                    ctx.case("narrow-float %s %s %s %r %r" % (narrow.__name__, wide.__name__, cmd, p, order), sample=None)
+                    ctx.count("c07_narrow_float_cases")
+                    if out["status"] != "ok" or ref["status"] != "ok":
+                        if out["status"] != ref["status"]:
+                            ctx.fail("%s on (%s, %s) fields: %s" % (cmd, narrow.__name__, wide.__name__, eems.impl_summary(out)), dict(case.describe(), dtypes=[str(x.dtype) for x in case.inputs]))
+                        continue
+                    v1, v2 = ref["vis"][3], out["vis"][3]
+                    bad = [k for k, (x, y) in enumerate(zip(v1, v2)) if (x is None) != (y is None) or (x is not None and abs(float(x) - float(y)) > 1e-9 * max(1.0, abs(float(x))))]
+                    if bad:
+                        k = bad[0]
+                        ctx.fail("%s on a %s field and a %s field (order %r): cell %d is %r, the arithmetic definition gives %r" % (
+                            cmd, narrow.__name__, wide.__name__, order, k, v2[k], v1[k]), dict(case.describe(), dtypes=[str(x.dtype) for x in case.inputs]))
+
+
 def run(ctx):
     ctx.check_proofs(["MPilot.Props.C07"])
     model = common.Model()
@@ -149,6 +182,7 @@ def run(ctx):
     eems.run_stream(ctx, model, gen_random(ctx, eems.ARITH, ctx.budget(8, 300), "wild"), "exec:arith:errors", on_result=orc)
     errors(ctx)
     unsigned(ctx)
+    narrow_floats(ctx)
     numeric.focus_search(ctx, model, lambda cmds, f: gen_random(ctx, cmds, 20 * f, "valid"), orc)
     return ctx.finish(
         rule="(a) every int/float mix of 1..3 (thorough: 5) inputs per command; (b) random 1-5 input cases over the lattice "
